@@ -1,5 +1,7 @@
 """C01 - learned diagram accepts every job it was learned from."""
-from .. import dsl
+import itertools
+
+from .. import dsl, semantics
 from . import pvcommon, pvsweep
 
 ID = "C01"
@@ -27,6 +29,26 @@ def build(tier, ctx):
             if dsl.depth_has_loop(d):
                 tasks.append({"name": nm, "defn": dsl.to_list(d), "k": 3,
                               "pres": ["canonical"], "mode": "c01"})
+    # incomplete evidence: the property quantifies over *all* finite job
+    # sets of a definition, not only the complete one
+    nsub = 5 if tier == "quick" else 6
+    for nm, d in pvcommon.scope_defs(ctx["repo"], nsub, with_corpus=False):
+        if tier == "quick" and len(dsl.event_names(d)) == 5 and \
+                (dsl.constructs(d) & {"loop", "detach", "break"}):
+            continue   # quick: F_4 in full, F_5 fork-only definitions
+        m = len(semantics.executions(d, 2))
+        idx = range(m)
+        if m <= 7:
+            subs = [list(c) for r in range(1, m)
+                    for c in itertools.combinations(idx, r)]
+        elif m <= 16:
+            subs = [[i] for i in idx] + \
+                   [[j for j in idx if j != i] for i in idx]
+        else:
+            subs = []
+        for i in range(0, len(subs), 24):
+            tasks.append({"name": nm, "defn": dsl.to_list(d), "k": 2,
+                          "mode": "c01sub", "subsets": subs[i:i + 24]})
     return tasks
 
 
@@ -35,7 +57,11 @@ def collect(tier, tasks, results, ctx):
               "definitions": "F_5 + 63 corpus" if tier == "quick"
               else "F_7 + 63 corpus; k=3 for loop definitions of F_5",
               "presentations": ["canonical", "reversed", "rotated"],
-              "loop_bound_k": 2}
+              "loop_bound_k": 2,
+              "incomplete_evidence": "every proper non-empty subset of "
+              "J_2(D) for |J| <= 7, singletons and leave-one-out for "
+              "|J| <= 16; D in " + ("F_4 and the fork-only definitions of F_5"
+                                   if tier == "quick" else "F_6")}
     rule = ("every definition of fragment F up to the bound and every corpus "
             "definition; complete job set with each loop run 1..k times; "
             "three presentations; the emitted diagram is explored in product "
